@@ -215,8 +215,17 @@ def run(ctx):
         alone_b = observe.run(pdbgen.text(lb3 + ["TER   \n"]), [], want_text=False)
         if alone_a.error or alone_b.error:
             continue
+        # hetero atoms of the first part written after its TER (as deposited files do): an ion next to A
+        het_a = []
+        if k % 4 == 2:
+            (x0, x1), (y0, y1), (z0, z1) = pdbgen.bbox(la2)
+            het_a = ["HETATM 9001 ZN    ZN A 901    %8.3f%8.3f%8.3f  1.00  0.00          ZN\n" % (round(x0 - 6.0, 3), round(y0, 3), round(z0, 3))]
+            alone_a = observe.run(pdbgen.text(la2 + ["TER   \n"] + het_a), [], want_text=False)
+            if alone_a.error:
+                continue
+            ctx.count("unions with a hetero atom between the parts")
         for order in (0, 1):
-            lines = (la2 + ["TER   \n"] + lb3 + ["TER   \n"]) if order == 0 else (lb3 + ["TER   \n"] + la2 + ["TER   \n"])
+            lines = (la2 + ["TER   \n"] + het_a + lb3 + ["TER   \n"]) if order == 0 else (lb3 + ["TER   \n"] + la2 + ["TER   \n"] + het_a)
             u = observe.run(pdbgen.text(lines), [], want_text=False)
             na_groups = len([g for g in alone_a.confs.get("1A", []) if g["use"]])
             nb_groups = len([g for g in alone_b.confs.get("1A", []) if g["use"]])
